@@ -18,7 +18,13 @@ FAMILIES = [
     ("complit", "var x, y expression", "pair(x, y)", "Pair{First: x, Second: y}"),
     ("closure", "var x expression", "later(x)", "func() { use(x) }"),
     ("dots-keep", "var x expression", "foo(x, ...)", "bar(..., x, x)"),
+    # operands that go/printer prints without parentheses of its own (repo fix 0731148)
+    ("deref", "var x expression", "ptr(x)", "*x"),
+    ("chan-of", "var x expression", "mk(x)", "make(chan x)"),
+    ("recv-chan-of", "var x expression", "mk(x)", "make(<-chan x, 1)"),
 ]
+FILL_OF = {"chan-of": ["int", "<-chan int", "chan<- int", "chan int", "[]T", "<-chan <-chan int", "func() <-chan int", "*T"],
+           "recv-chan-of": ["int", "<-chan int", "chan<- int", "chan int", "map[K]V"]}
 FILL = ["a", "a + b", "f(1)", "-n", "<-ch", "m[k]", "*p", "a.b", "func() int { return 1 }", "T{1}", "x.(I)", "a || b", "\"s\"", "c ? 1 : 2"]
 FILL = [f for f in FILL if "?" not in f]
 # places in which the identifier `target` is syntactically an identifier-only slot or an expression slot
@@ -41,7 +47,8 @@ def case(rng, k):
         for j in range(rng.randint(2, 6)):
             code = minus
             # sometimes the captured code itself contains an instance, one or more levels down
-            code = re.sub(r"\bx\b", lambda m: rng.choice(NEST) if rng.random() < 0.3 else rng.choice(FILL), code, count=1)
+            fill = FILL_OF.get(name, FILL)
+            code = re.sub(r"\bx\b", lambda m: rng.choice(NEST) if (rng.random() < 0.3 and name not in FILL_OF) else rng.choice(fill), code, count=1)
             code = re.sub(r"\by\b", lambda m: rng.choice(FILL), code)
             code = re.sub(r"\bf\b", lambda m: rng.choice(["alpha", "beta"]), code)
             code = re.sub(r"\.\.\.", lambda m: ", ".join(rng.choice(FILL) for _ in range(rng.randint(0, 3))), code)
